@@ -207,7 +207,8 @@ def run(res, a):
             flat = sorted(set(c for cs in codes for c in cs))
             for c in flat:
                 mism.append(({1: "the assembler's program differs from the model's", 2: "the machine's R/N/M/O differ from the model's sizing",
-                              3: "the model rejects a source the assembler accepts", 4: "the inferred sizes do not fit the program"}[c], meta))
+                              3: "the model rejects a source the assembler accepts", 4: "the inferred sizes do not fit the program",
+                              5: "a generated section is outside the premise of the lock-step theorems (a jump written without a label)"}[c], meta))
             if div:
                 if not first:
                     hist["entry_not_first_diverges"] += 1
